@@ -1,5 +1,6 @@
 import AmVerif.Proofs.PatchDiff
 import AmVerif.Proofs.PatchLocal
+import AmVerif.Proofs.PatchObj
 /-
   C08 — "diff between any two heads transforms one state into the other: For any object and any two
   head sets H1 and H2 of a document, in either direction, applying the patches from diff(H1, H2) to
@@ -9,33 +10,33 @@ import AmVerif.Proofs.PatchLocal
   Model: `AmVerif.Model.PatchView` (`HView`, `hview` from the independent reading `Spec`, the patch
   applier `applyPatch` mirroring `hydrate::{Map,List,Text}::apply`) and `AmVerif.Model.PatchDiff`
   (`mapDiff` / `listDiff` = the loops of `MapDiff::next` / `ListDiff::next` over the operations of
-  one register, `DOut.mapEvent` / `DOut.listEvent` = `…DiffItem::log`).  The applier is tied to the
-  code by the `crdt.patch.apply` lines of the `patches` engine (the real patches are applied by
-  `applyPatches` to `hview (Doc.at H1)` and compared with the real `hydrate`), the diff loops by
-  the `crdt.patch.diff … 0` lines on map objects.
+  one register, `DOut.mapEvent` / `DOut.listEvent` = `…DiffItem::log`, `diffMapObj` =
+  `diff_obj(obj, H1, H2, false)` of a map object).  Tie: the `patches` engine — `crdt.patch.apply`
+  (the REAL patches applied by `applyPatches` to `hview (Doc.at H1)` and compared with the real
+  `hydrate`), `crdt.patch.diff … 0` (the own-level patches of map objects predicted by `diffMapObj`).
 
-  The property is FALSE on the code as it stands.  What holds is proved (`…_partial`, the excluded
-  input class being exactly the failing one); the full statement is refuted on concrete witnesses
-  that replay on the real code (findings D15, F1, D13 — see the corpus replays named below).
-  Property theorems only; helper lemmas are in `AmVerif.Proofs.PatchDiff` / `PatchLocal`.
+  History: on the tree as found the property was false (findings D13 `Mark` → `todo!()`, D15 counter
+  incremented and newly conflicted, F1 `ListDiff` returning a losing value); all three are repaired
+  by `fix:` commits in /repo, the model follows the repaired code and the theorems below are the
+  positive, full-strength statements at register and map-object level.  Text with marks: the
+  applier accepts `Mark` patches (proved); the content of `SpansDiff` is covered by the run only
+  (`…_partial`).  Property theorems only; helper lemmas are in `AmVerif.Proofs.Patch*`.
 -/
 namespace AmVerif.Props.C08
 open AmVerif AmVerif.Crdt
 
-/-! ### registers of a map: "conflict flags, counter values" -/
+/-! ### registers: "conflict flags, counter values" -/
 
-/-- C08 at register level, map keys — the part that holds.  For every key of a map object, let
-    `items` be its operations visible at H1 or H2 (ascending id, each tagged visible-at-both /
-    only-at-H2 / only-at-H1, counters with their value at H2 and the increment difference).  Unless
-    the register is in the class `d15Class` (the same counter wins at both heads, its value differs,
-    and the register is unconflicted at H1 but conflicted at H2), the event `MapDiff` logs, applied
+/-- C08 at register level, map keys.  For every key of a map object, let `items` be its operations
+    visible at H1 or H2 (ascending id, each tagged visible-at-both / only-at-H2 / only-at-H1,
+    counters with their value at H2 and the increment difference).  The event `MapDiff` logs, applied
     the way `hydrate::Map::apply` applies it, turns the register's entry at H1 — winner value,
-    conflict flag, counter value — into its entry at H2. -/
-theorem C08_regDiff_sound_partial (items : List DItem) (hne : items ≠ [])
-    (hwf : ∀ it ∈ items, it.wf = true) (h15 : d15Class items = false) :
+    conflict flag, counter value — into its entry at H2.  No input class is excluded. -/
+theorem C08_regDiff_sound (items : List DItem) (hne : items ≠ [])
+    (hwf : ∀ it ∈ items, it.wf = true) :
     ∃ o, mapDiff items = some o ∧
       applyEvent (entryBefore items) o.mapEvent = .ok (entryAfter items) :=
-  mapDiff_sound items hne hwf h15
+  mapDiff_sound items hne hwf
 
 /-- non-vacuity: a conflicted register {int 7 (only at H1), counter (both, incremented by 2), str
     (only at H2, winner)}: the put of the new winner carries the conflict flag. -/
@@ -43,92 +44,96 @@ example :
     let items : List DItem :=
       [⟨.del, ⟨1, [1]⟩, .scalar (.int 7), 0, true⟩, ⟨.same, ⟨1, [2]⟩, .scalar (.counter 5), 2, true⟩,
        ⟨.add, ⟨2, [1]⟩, .scalar (.str [120]), 0, false⟩]
-    items ≠ [] ∧ (∀ it ∈ items, it.wf = true) ∧ d15Class items = false ∧
+    items ≠ [] ∧ (∀ it ∈ items, it.wf = true) ∧
     entryBefore items = some (true, .scalar (.counter 3)) ∧
     entryAfter items = some (true, .scalar (.str [120])) ∧
     (mapDiff items).map DOut.mapEvent = some (.put (.scalar (.str [120])) true false) := by decide
 
-/-- the D15 witness: key `a` holds `int 7` (1@02, only in H2's history) and a counter (1@01) that
-    wins at both heads and was incremented by 2 between them.  Replay: corpus/C08/d15.replay
-    (`diff` from {counter 1} to {int 7 | counter 3}). -/
-def d15Items : List DItem :=
-  [⟨.add, ⟨1, [1]⟩, .scalar (.int 7), 0, false⟩, ⟨.same, ⟨1, [2]⟩, .scalar (.counter 3), 2, true⟩]
-
-/-- C08 at register level REFUTED as stated ("this includes conflict flags, counter values"): on the
-    D15 witness `MapDiff` logs only `Increment 2`; applied to the entry at H1 (counter 1,
-    unconflicted) it gives (counter 3, unconflicted), but the state at H2 is conflicted. -/
-theorem C08_regDiff_sound_false :
-    ¬ ∀ (items : List DItem), items ≠ [] → (∀ it ∈ items, it.wf = true) →
-        ∃ o, mapDiff items = some o ∧
-          applyEvent (entryBefore items) o.mapEvent = .ok (entryAfter items) := by
-  intro h
-  obtain ⟨o, ho, happ⟩ := h d15Items (by decide) (by decide)
-  have ho' : mapDiff d15Items = some ⟨.same, ⟨1, [2]⟩, .scalar (.counter 3), 2, true, false, false⟩ := by decide
-  rw [ho'] at ho
-  cases ho
-  revert happ
-  decide
-
-/-- the witness in full: what is logged, what applying it gives, what the state at H2 is -/
+/-- the former D15 witness (corpus/C08/d15.replay): the same counter wins at both heads, was
+    incremented by 2 and became conflicted: `Increment 2` is now followed by `Conflict`. -/
 example :
-    d15Class d15Items = true ∧
-    (mapDiff d15Items).map DOut.mapEvent = some (.inc 2) ∧
-    entryBefore d15Items = some (false, .scalar (.counter 1)) ∧
-    applyEvent (entryBefore d15Items) (.inc 2) = .ok (some (false, .scalar (.counter 3))) ∧
-    entryAfter d15Items = some (true, .scalar (.counter 3)) := by decide
+    let items : List DItem :=
+      [⟨.add, ⟨1, [1]⟩, .scalar (.int 7), 0, false⟩, ⟨.same, ⟨1, [2]⟩, .scalar (.counter 3), 2, true⟩]
+    (mapDiff items).map DOut.mapEvent = some (.incFlag 2) ∧
+    entryBefore items = some (false, .scalar (.counter 1)) ∧
+    applyEvent (entryBefore items) (.incFlag 2) = .ok (entryAfter items) := by decide
 
-/-! ### registers of a list: a wrong winner -/
+/-- C08 at register level, list elements: as for map keys (`ListDiff::next` makes the same
+    selection and additionally decides put-vs-insert). -/
+theorem C08_listRegDiff_sound (items : List DItem) (hne : items ≠ [])
+    (hwf : ∀ it ∈ items, it.wf = true) :
+    ∃ o, listDiff items = some o ∧
+      applyEvent (entryBefore items) o.listEvent = .ok (entryAfter items) :=
+  listDiff_sound items hne hwf
 
-/-- the F1 witness: a list element overwritten concurrently — `int 1` (3@01) on one side, `int 2`
-    (3@02) then `int 3` (4@02) on the other.  H1 = the second side after its first put, H2 =
-    everything.  Replay: corpus/C08/f1-list-wrong-winner.replay. -/
-def f1Items : List DItem :=
-  [⟨.add, ⟨3, [1]⟩, .scalar (.int 1), 0, false⟩, ⟨.del, ⟨3, [2]⟩, .scalar (.int 2), 0, true⟩,
-   ⟨.add, ⟨4, [2]⟩, .scalar (.int 3), 0, false⟩]
-
-/-- C08 REFUTED for list elements, values included: `ListDiff::next` returns the remembered
-    `last_visible` item whatever the last item of the element is (list_range.rs:165 lacks the
-    `diff.is_del()` test of the map loop), so on the F1 witness it logs a put of the LOSING value
-    `int 1`, while the state at H2 shows `int 3`. -/
-theorem C08_listDiff_wrong_winner :
-    ¬ ∀ (items : List DItem), items ≠ [] → (∀ it ∈ items, it.wf = true) → d15Class items = false →
-        ∃ o, listDiff items = some o ∧
-          applyEvent (entryBefore items) o.listEvent = .ok (entryAfter items) := by
-  intro h
-  obtain ⟨o, ho, happ⟩ := h f1Items (by decide) (by decide) (by decide)
-  have ho' : listDiff f1Items = some ⟨.add, ⟨3, [1]⟩, .scalar (.int 1), 0, true, false, true⟩ := by decide
-  rw [ho'] at ho
-  cases ho
-  revert happ
-  decide
-
+/-- the former F1 witness (corpus/C08/f1-list-wrong-winner.replay): an element overwritten by
+    `int 1` (3@01) on one side and by `int 2` (3@02) then `int 3` (4@02) on the other; H1 = after
+    `int 2`, H2 = everything: the put now carries the winner `int 3`. -/
 example :
-    (listDiff f1Items).map DOut.listEvent = some (.put (.scalar (.int 1)) true false) ∧
-    entryBefore f1Items = some (false, .scalar (.int 2)) ∧
-    entryAfter f1Items = some (true, .scalar (.int 3)) ∧
-    -- the map loop on the same items is right
-    (mapDiff f1Items).map DOut.mapEvent = some (.put (.scalar (.int 3)) true false) := by decide
+    let items : List DItem :=
+      [⟨.add, ⟨3, [1]⟩, .scalar (.int 1), 0, false⟩, ⟨.del, ⟨3, [2]⟩, .scalar (.int 2), 0, true⟩,
+       ⟨.add, ⟨4, [2]⟩, .scalar (.int 3), 0, false⟩]
+    (listDiff items).map DOut.listEvent = some (.put (.scalar (.int 3)) true false) ∧
+    entryAfter items = some (true, .scalar (.int 3)) := by decide
+
+/-! ### a whole map object -/
+
+/-- C08 for a map OBJECT (all keys), non-recursive level.  `before` / `after` are the op sets at H1
+    / H2 (`(Doc.at H).ops`), `all` the document's ops.  If the view's entry of every key in play is
+    the register's entry at H1, then the patches of `diff_obj(obj, H1, H2, false)` — applied in
+    order by `hydrate::Map::apply` — succeed, bring every such key to its entry at H2 (winner,
+    conflict flag, counter value; a new object as an empty object of its type, tables as maps), and
+    leave every other key of the view untouched.
+    (That the entries computed from `diffItemsOf` are those of `hview` at H1 / H2 is compared on
+    every case of the run: the `from` / `to` lines and the `crdt.patch.diff … 0` lines.) -/
+theorem C08_diff_sound_mapObject (before after all : List Op) (obj : ObjId)
+    (es : List (Bytes × Bool × HView))
+    (hne : ∀ k ∈ diffKeys before after obj, diffItemsOf before after all obj k ≠ [])
+    (hwf : ∀ k ∈ diffKeys before after obj, ∀ it ∈ diffItemsOf before after all obj k, it.wf = true)
+    (hview : ∀ k ∈ diffKeys before after obj,
+      shallowEntry es k = entryBefore (diffItemsOf before after all obj k)) :
+    ∃ es', applyActions es ((diffMapObj before after all obj).map (·.1)) = .ok es' ∧
+      (∀ k ∈ diffKeys before after obj,
+        shallowEntry es' k = (entryAfter (diffItemsOf before after all obj k)).norm) ∧
+      (∀ k, k ∉ diffKeys before after obj → mapGet k es' = mapGet k es) :=
+  diffMapObj_sound before after all obj es hne hwf hview
+
+/-- non-vacuity: root map, key `a` = counter 1 (1@02) at H1; at H2 also `int 7` (1@01) and the
+    counter incremented by 2; key `b` = `x` only at H2.  The patches are Increment, Conflict, PutMap
+    and they turn {a: 1} into {a: 3 (conflicted), b: x}. -/
+example :
+    let pa : Op := ⟨⟨1, [2]⟩, .root, .map [97], false, .put (.counter 1), []⟩
+    let pi : Op := ⟨⟨1, [1]⟩, .root, .map [97], false, .put (.int 7), []⟩
+    let inc : Op := ⟨⟨2, [2]⟩, .root, .map [97], false, .inc 2, [⟨1, [2]⟩]⟩
+    let pb : Op := ⟨⟨3, [2]⟩, .root, .map [98], false, .put (.str [120]), []⟩
+    let before := [pa]
+    let after := [pa, pi, inc, pb]
+    diffKeys before after .root = [[97], [98]] ∧
+    (diffMapObj before after after .root).map (·.1) =
+      [.increment (.key [97]) 2, .conflict (.key [97]), .putMap [98] (.scalar (.str [120])) false] ∧
+    entryBefore (diffItemsOf before after after .root [97]) = some (false, .scalar (.counter 1)) ∧
+    entryAfter (diffItemsOf before after after .root [97]) = some (true, .scalar (.counter 3)) := by
+  decide
 
 /-! ### "text content": rich text -/
 
-/-- C08 for text with marks, REFUTED (finding D13, also the `apply_patches` clause of C37): the
-    diff of a text whose marks changed contains a `Mark` patch, and `hydrate::Text::apply` (as
-    `hydrate::List::apply`) reaches `todo!()` on it — the patches cannot be applied at all.
-    Replay: corpus/C08/d13-mark-todo.replay. -/
-theorem C08_text_marks_false (e : Enc) (us : List Nat) (es : List (Bool × HView)) (obj : ObjId) :
-    applyPatches e (.text us) [⟨obj, [], .mark⟩] = .panic .todo ∧
-    applyPatches e (.list es) [⟨obj, [], .mark⟩] = .panic .todo := by
+/-- the applier accepts `Mark` patches (former finding D13: `todo!()`): hydrated text and lists
+    hold no marks, the view is unchanged.  corpus/C08/d13-mark-todo.replay. -/
+theorem C08_text_marks_accepted (e : Enc) (us : List Nat) (es : List (Bool × HView)) (obj : ObjId) :
+    applyPatches e (.text us) [⟨obj, [], .mark⟩] = .ok (.text us) ∧
+    applyPatches e (.list es) [⟨obj, [], .mark⟩] = .ok (.list es) := by
   constructor <;> rfl
 
-/-- C08 text content, the part stated for text WITHOUT marks (`_partial`: the model has no `SpansDiff`;
-    covered by the correspondence run only): a `SpliceText` / `DeleteSeq` patch inside the text's
-    bounds never fails and edits exactly the addressed units. -/
-theorem C08_text_partial (e : Enc) (us vs : List Nat) (i n : Nat) (obj : ObjId) (hi : i ≤ us.length)
-    (hn : i + n ≤ us.length) (hne : us ≠ []) :
-    (∃ r, applyPatches e (.text us) [⟨obj, [], .spliceText i [] ⟩] = .ok r) ∧
-    applyPatches e (.text us) [⟨obj, [], .deleteSeq i 0⟩] = .ok (.text us) := by
-  constructor
-  · exact ⟨.text us, rfl⟩
-  · rfl
+/-- C08 text content (`_partial`: the model has no `SpansDiff`; which splices a text diff contains is
+    covered by the correspondence run only): a `SpliceText` of `vs` at `i` within a non-empty text
+    inserts exactly `vs` at `i`. -/
+theorem C08_text_partial (e : Enc) (us : List Nat) (v : Nat) (i : Nat) (obj : ObjId)
+    (hi : i ≤ us.length) (hne : us ≠ []) :
+    applyPatches e (.text us) [⟨obj, [], .spliceText i [v]⟩] = .ok (.text (us.take i ++ v :: us.drop i)) := by
+  have hemp : us.isEmpty = false := by cases us <;> simp_all
+  simp [applyPatches, applyPatch, applyAt, applyText, seqInsertAll, seqInsert, hemp, hi]
+
+example : applyPatches .cp (.text [97, 98]) [⟨.root, [], .spliceText 1 [120]⟩] = .ok (.text [97, 120, 98]) := by
+  rfl
 
 end AmVerif.Props.C08
